@@ -82,8 +82,17 @@ def parse_las(text):
     return out
 
 
-def decimals_of(text):
-    return len(text.split('.')[1]) if '.' in text and 'e' not in text.lower() else 0
+def unit_of(text):
+    """One unit of the last printed decimal of a number as printed (1.19e+04 -> 100, 12.250 -> 1/1000)."""
+    t = text.lower()
+    if 'e' in t:
+        mant, ex = t.split('e', 1)
+        try:
+            e = int(ex)
+        except ValueError:
+            return Fraction(1)
+        return Fraction(10) ** (e - (len(mant.split('.')[1]) if '.' in mant else 0))
+    return Fraction(1, 10 ** (len(t.split('.')[1]) if '.' in t else 0))
 
 
 def close_to(text, exact, extra=Fraction(0)):
@@ -95,7 +104,7 @@ def close_to(text, exact, extra=Fraction(0)):
             v = Fraction(float(text))
         except ValueError:
             return False
-    tol = Fraction(1, 2) / (10 ** decimals_of(text)) + extra + abs(exact) * Fraction(1, 2 ** 50)
+    tol = unit_of(text) / 2 + extra + abs(exact) * Fraction(1, 2 ** 50)
     return abs(v - exact) <= tol
 
 
@@ -398,13 +407,14 @@ def check_conversion(fmt, variant, opts, workdir, before=()):
             pass
     data, fname, passes = SOURCES[fmt](variant)
     d = os.path.join(workdir, 'in')
-    o = os.path.join(workdir, 'out')
+    o = os.path.join(workdir, 'out.v1')       # a directory name with a dot in it: the output name's extension is looked for in its last part only
     os.makedirs(d)
     os.makedirs(o)
     path_in = os.path.join(d, fname)
     with open(path_in, 'wb') as f:
         f.write(data)
-    path_out = os.path.join(o, os.path.splitext(fname)[0] if fmt != 'rp66' else fname)
+    # (the RP66V1 converter is given the output name with the input's extension by its tool; half of the cases give it without one)
+    path_out = os.path.join(o, os.path.splitext(fname)[0] if (fmt != 'rp66' or len(repr(opts)) % 2 == 0) else fname)
     bad = []
     try:
         if variant.get('same_index_first') is not None:
@@ -462,6 +472,12 @@ def check_conversion(fmt, variant, opts, workdir, before=()):
         except Exception as err:  # noqa
             bad.append(({'kind': 'las_not_readable', 'format': fmt, 'exc': type(err).__name__}, '%s: LASRead fails: %s' % (path, str(err)[:200])))
         rows = las['rows']
+        if opts['fmt'].endswith('e'):
+            # the print precision is the one asked for: '.2e' prints every number with two decimals in its mantissa
+            want = re.compile(r'^-?[0-9]\.[0-9]{%d}e[+-][0-9]+$' % int(opts['fmt'][1:-1]))
+            odd = [cell for r in rows if len(r) == len(cols) for cell, c in zip(r, cols) if not p['channels'][c].get('int') and not want.match(cell)]
+            if odd:
+                bad.append(({'kind': 'cells_not_in_the_requested_format', 'format': fmt}, '%s: float format %r requested, cells written as %r' % (path, opts['fmt'], odd[:4])))
         if idx is None:        # sample of k: at most k rows, increasing, starting with the first frame - which frames is free
             k = sel[1]
             if not 1 <= len(rows) <= k:
@@ -594,6 +610,11 @@ def gen_cases(tier, fmt):
         for ff in ('.3f', '.1f'):       # (not .0f: the index values must stay distinct as printed)
             yield {'variant': {}, 'opts': dict(DEFAULT, width=width, fmt=ff)}
             yield {'variant': {'two': True}, 'opts': dict(DEFAULT, width=width, fmt=ff, channels=CHANNEL_SETS[fmt][1])}
+    # a float format other than fixed point (the option takes any '.N<type>'): exponent notation (with enough decimals to keep the X values apart)
+    for ff in ('.5e', '.7e'):
+        for sel in (None, ['slice', 1, None, 2]):
+            yield {'variant': {}, 'opts': dict(DEFAULT, fmt=ff, sel=sel)}
+            yield {'variant': {'two': True}, 'opts': dict(DEFAULT, fmt=ff, sel=sel, channels=CHANNEL_SETS[fmt][1])}
     if fmt == 'rp66':
         yield {'variant': {'origin': 'minimal'}, 'opts': dict(DEFAULT)}
         for chs in CHANNEL_SETS[fmt] + [['IMG'], ['MAT', 'GR'], ['IMG', 'WAVE']]:
